@@ -6026,10 +6026,14 @@ class CodegenCtx:
         result.add("// possible end transitions")
         
         # Create all transitions for possible conditions
+        final_state = state
         if unconditional_end_transition:
             result += self._generate_transition_body(unconditional_end_transition, True)
+            # a taken end transition that isn't a fallthrough (those re-dispatch on their own) leaves us in its target
+            if not unconditional_end_transition.is_fallthrough:
+                final_state = unconditional_end_transition.target
 
-        if state in self.dfa.accepting_states:
+        if final_state in self.dfa.accepting_states:
             result.add(f"return {self.program_name.upper()}_DONE;")
         else:
             result.add(f"return {self.program_name.upper()}_FAIL;")
